@@ -95,6 +95,18 @@ func TestVerifC07(t *testing.T) {
 			c.WriteErrKind, c.WriteErrN = "nobufs", rr.Intn(4)
 		}
 		c.StopAt = at + time.Duration(rr.Int63n(int64(3*time.Second)))
+		c.ReportK1 = true
+		if r.Part != "det" && i%3 == 0 {
+			// K1 reproducer: a solicitation delivered in the very instant the
+			// delayed first periodic RA (t = 3 s) fires, then silence.
+			c.ID = fmt.Sprintf("k1/%d", i)
+			c.Min, c.Max, c.UnicastOnly, c.WriteErrKind = 20*time.Second, 30*time.Second, false, ""
+			c.Steps = []advStep{{At: 3 * time.Second, Kind: "rs", Src: vSrc(0, i)}}
+			if i%2 == 0 {
+				c.Steps = append(c.Steps, advStep{At: 3 * time.Second, Kind: "rs", Src: vSrc(1, i)})
+			}
+			c.StopAt = 6 * time.Second
+		}
 		if !r.Mine(c.ID) {
 			continue
 		}
